@@ -201,7 +201,9 @@ CLAIMED["C09"] = {
             "limit (None or any usize), including no-panic; origin check for "
             "snapshot + 2 deltas with arbitrary authority letters; the "
             "per-element byte counter as one inductive step from an "
-            "arbitrary (trip, limit) state.",
+            "arbitrary (trip, limit) state; the hash attribute parser on "
+            "every 64-octet ASCII string (accepted iff 64 hex digits, value "
+            "preserved).",
     "ref": "§3 C09",
     "note": "Hooks: xml::decode::VerifCounter, Https::verif_from_parts. "
             "Stub: alloc::fmt::format (error text only). NOT decided: "
